@@ -11,8 +11,8 @@
 -/
 import FcModel.Structured
 import FcModel.Meshio
-namespace Fc.Spec
-open Fc
+namespace Fc.C07.Spec
+open Fc Fc.C07
 
 /-- corner offsets δ of the VTK linear cell types, in the order VTK lists the corners -/
 def vtkCorners : String → List (List Nat)
@@ -134,4 +134,4 @@ def mioCellContentFrom (m : MioMesh) : Nat → List (String × List (List Nat)) 
 /-- every cell of every block -/
 def mioCellContent (m : MioMesh) : List CellItem := mioCellContentFrom m 0 m.blocks
 
-end Fc.Spec
+end Fc.C07.Spec
